@@ -5,7 +5,7 @@ use notify::{Config, Event, EventKind, RecommendedWatcher, RecursiveMode, Watche
 use rustls::server::ServerConfig;
 use std::path::PathBuf;
 use std::sync::{Arc, RwLock};
-use std::time::{Duration, Instant};
+use std::time::{Duration, Instant, SystemTime};
 use tokio::sync::mpsc;
 use tokio_rustls::TlsAcceptor;
 use tracing::{debug, error, info, warn};
@@ -167,7 +167,8 @@ impl CertReloader {
 
         // Check expiry
         if self.config.check_expiry {
-            if new_cert_info.is_expired() {
+            // `is_expired` counts whole days, so it only fires a full day after `not_after`
+            if new_cert_info.is_expired() || new_cert_info.not_after < SystemTime::now() {
                 return Err(AnyTlsError::Tls("New certificate has expired".to_string()));
             } else if new_cert_info.is_expiring_soon(self.config.expiry_warning_days) {
                 warn!(
